@@ -86,7 +86,10 @@ def gen_case(tape, tier):
             pieces, retval, cl = [bytes(rendered if isinstance(rendered, (bytes, bytearray)) else rendered.encode())], None, None
             cl = len(pieces[0])
             headers = [("content-type", "text/plain"), ("content-length", str(cl))]
-        reqs.append(dict(i=i, version=version, conn=conn, method=method, body=body, status=status, pieces=pieces, retval=retval,
+        req_chunks = None
+        if method != "GET" and version == "1.1" and tape.flag("req_chunked", 1, 3):
+            req_chunks = [1 + tape.draw("req_cut", 20) for _ in range(tape.draw("n_req_cuts", 3))] or [0]
+        reqs.append(dict(i=i, version=version, conn=conn, method=method, body=body, req_chunks=req_chunks, status=status, pieces=pieces, retval=retval,
                          cl=cl, headers=headers, httperror=httperror))
         if not persistent(reqs[-1]):
             break      # a well-behaved client sends nothing after a request that ends the connection
@@ -103,6 +106,17 @@ def request_bytes(r):
     lines = ["%s /r%d HTTP/%s" % (r["method"], r["i"], r["version"]), "Host: x"]
     if r["conn"]:
         lines.append("Connection: %s" % r["conn"])
+    if r["method"] != "GET" and r.get("req_chunks"):
+        # the request body comes chunked: how one request was framed must not leak into how the next one is read
+        lines.append("Transfer-Encoding: chunked")
+        b, out = r["body"], []
+        cuts = sorted(set(min(len(b), c) for c in r["req_chunks"])) if b else []
+        prev = 0
+        for c in cuts + [len(b)]:
+            if c > prev:
+                out.append(b"%x\r\n" % (c - prev) + b[prev:c] + b"\r\n")
+                prev = c
+        return ("\r\n".join(lines) + "\r\n\r\n").encode() + b"".join(out) + b"0\r\n\r\n"
     if r["method"] != "GET":
         lines.append("Content-Length: %d" % len(r["body"]))
     return ("\r\n".join(lines) + "\r\n\r\n").encode() + r["body"]
